@@ -28,12 +28,18 @@ pub struct Resend {
     /// after the hold phase the entity gets a structural change (delivered reliably) before the old acknowledgements arrive
     #[serde(default)]
     pub insert_before_release: bool,
+    /// acknowledgement-channel messages of a connected peer that the game never authorizes, arriving in the same server
+    /// frame in front of the genuine acknowledgements (custom authorization, third client)
+    #[serde(default)]
+    pub peer_acks: Vec<Vec<u8>>,
 }
 
 pub fn run_resend(c: &Resend) -> Outcome {
     let n = (c.entities as usize).clamp(1, 5);
+    let peer = !c.peer_acks.is_empty();
     let cfg = Cfg {
-        clients: 2,
+        clients: if peer { 3 } else { 2 },
+        auth: if peer { 1 } else { 0 },
         policy: 0,
         vis: c.vis % 2, // all or blacklist
         sync: c.sync,
@@ -46,6 +52,11 @@ pub fn run_resend(c: &Resend) -> Outcome {
     let mut sim = Sim::new(&cfg, Oracles::default());
     sim.connect(0);
     sim.connect(1);
+    if peer {
+        sim.authorize(0);
+        sim.authorize(1);
+        sim.connect(2);
+    }
     for slot in 0..n {
         sim.step(&Step::Spawn { slot, marked: true, comps: vec![K::A, K::C] });
     }
@@ -111,6 +122,10 @@ pub fn run_resend(c: &Resend) -> Outcome {
     for j in &c.junk {
         sim.step(&Step::JunkAck { client: 0, bytes: j.clone() });
     }
+    for j in &c.peer_acks {
+        sim.step(&Step::JunkAck { client: 2, bytes: j.clone() });
+    }
+    while peer && sim.deliver_c2s(2, 0, 0) {}
     if strict {
         // "stops being re-sent afterwards": the client has the latest data (last mutate message, or the update message) and
         // every acknowledgement now reaches the server; the very next tick must not carry the mutation again
@@ -165,6 +180,9 @@ pub fn run_resend(c: &Resend) -> Outcome {
     if !c.junk.is_empty() {
         out.classes.push("junk_ack");
     }
+    if peer {
+        out.classes.push("unauthorized_peer_acks_in_front");
+    }
     out
 }
 
@@ -177,8 +195,9 @@ fn resend_strategy() -> impl Strategy<Value = Resend> {
         any::<bool>(),
         0u8..2,
         any::<bool>(),
+        prop_oneof![2 => Just(Vec::new()), 1 => proptest::collection::vec(proptest::collection::vec(any::<u8>(), 0..4), 1..3)],
     )
-        .prop_map(|((sync, track, children, timeout_ms, entities), hold, idle_frames, junk, mutate_again, vis, insert_before_release)| Resend {
+        .prop_map(|((sync, track, children, timeout_ms, entities), hold, idle_frames, junk, mutate_again, vis, insert_before_release, peer_acks)| Resend {
             sync,
             track,
             children,
@@ -190,6 +209,7 @@ fn resend_strategy() -> impl Strategy<Value = Resend> {
             mutate_again,
             vis,
             insert_before_release,
+            peer_acks,
         })
 }
 
